@@ -138,8 +138,8 @@ package value
 //@ func IsNull
 //@   inline
 //@ func Discard
-//@   property C14
-//@   ensures true
+//@   trusted assumed: puts the object back into its sync.Pool; the next New* call may hand it out again
+//@   requires [owned-temporary] p == nil || p == null || owned(p) || is(p, *Boolean) || is(p, *Ternary) || is(p, *Null)
 //@   modifies nothing
 
 // ---------------------------------------------------------------------------------------------
